@@ -9,6 +9,32 @@ HCS = ['nil', 'nil', 'one']
 CLEANS = ('Clean', 'CleanEnd')
 
 
+THOROUGH_DESIGN = {
+    # (config, with -coverage 1): coverage (slows TLC down ~3x) on the small configurations only
+    'C08': [('MC_Cleaner_epochs.cfg', True), ('MC_Cleaner_readers.cfg', True), ('MC_Cleaner_C09.cfg', True),
+            ('MC_Cleaner_thorough.cfg', False)],
+    'C09': [('MC_Cleaner_epochs.cfg', True), ('MC_Cleaner_C09_thorough.cfg', False)],
+}
+# actions that do not matter for a property (not required to be taken by its design checks)
+IRRELEVANT = {'C08': set(), 'C09': {'MCNewReader', 'MCDrain'}}
+
+
+def action_counts(out):
+    """-coverage 1 output -> {action of MC_Cleaner (MCAppend, MCClean, ...): states generated}"""
+    import re
+    src = open(os.path.join(core.SPEC, 'MC_Cleaner.tla')).read().split('\n')
+    counts = {}
+    for m in re.finditer(r'^<(\w+) line \d+, col \d+ to line \d+, col \d+ of module MC_Cleaner'
+                         r'(?: \((\d+) \d+ \d+ \d+\))?>: (\d+):(\d+)', out, re.M):
+        name = m.group(1)
+        if m.group(2):
+            k = re.search(r'MC[A-Z]\w+', src[int(m.group(2)) - 1] + ' ' + src[int(m.group(2))] + ' ' + src[int(m.group(2)) + 1])
+            name = k.group(0) if k else 'MCNext@%s' % m.group(2)
+        if name != 'MCInit':
+            counts[name] = int(m.group(4))       # printed more than once: the last one is final
+    return counts
+
+
 def decorate(beh, rng, bid):
     """TLC behaviour (list of simulation steps) -> stimulus for the Go harness"""
     first = beh[0]['body']
@@ -23,7 +49,7 @@ def decorate(beh, rng, bid):
         a = dict(st['last'])
         if a['a'] == 'Append':
             a['recs'] = [{'ep': r['ep'], 'ts': r['ts'], 'val': r['val'], 'sz': r['sz'], 'key': r['key'],
-                          'vc': 'short', 'hc': rng.choice(HCS), 'exp': -1} for r in a['recs']]
+                          'vc': 'short', 'hc': rng.choice(HCS), 'exp': r['exp']} for r in a['recs']]
         out['steps'].append(a)
     return out
 
@@ -117,13 +143,24 @@ def run_check(rep, tier, seed, replay, prop, names, nontrivial, rule, quick_num=
     quick = tier == 'quick'
     suffix = '' if prop == 'C08' else '_C09'
     # 1. design check: every behaviour of the bounded model satisfies P_* (StepsOK) and the invariants
-    cfgs = ['MC_Cleaner%s.cfg' % suffix] if quick else ['MC_Cleaner%s.cfg' % suffix, 'MC_Cleaner%s_thorough.cfg' % suffix]
+    cfgs = [('MC_Cleaner%s.cfg' % suffix, not quick)]
+    if not quick:
+        cfgs += THOROUGH_DESIGN[prop]
     if os.environ.get('VERIF_SKIP_DESIGN'):      # self-tests of the binding (mutants) only
         cfgs = []
-    for cfg in cfgs:
-        res = core.tlc_check('MC_Cleaner.tla', cfg, timeout=3000, coverage=not quick)
+    taken = {}
+    for cfg, cov in cfgs:
+        res = core.tlc_check('MC_Cleaner.tla', cfg, timeout=3000, coverage=cov)
+        res['zero_cov'] = []                     # per-disjunct accounting below instead
         rep.add_design(cfg[:-4], res)
+        for name, n in action_counts(res['out']).items():
+            taken[name] = taken.get(name, 0) + n
         lap('design check ' + cfg)
+    if taken:
+        rep.cov['design_action_counts'] = taken
+        rep.cov['coverage_zero_actions'] = sorted(a for a, n in taken.items() if n == 0 and a not in IRRELEVANT[prop])
+        if rep.cov['coverage_zero_actions']:
+            raise core.Inconclusive('design check never takes: %s' % rep.cov['coverage_zero_actions'])
     # 2. behaviours from the specification
     num = quick_num if quick else thorough_num
     depth = 16 if quick else 20
